@@ -53,6 +53,10 @@ def _conc_dfs(cfg, prog, bound, max_runs, seed):
     return out
 
 
+def _conc_script(cfg, prog, order, seed):
+    return [slim(concdriver.run_program(cfg, prog, sched.scripted_phases(order), seed, 0))]
+
+
 def _conc_rand(cfg, prog, seed):
     rng = random.Random(seed)
     return [slim(concdriver.run_program(cfg, prog, sched.random_strategy(rng, rng.choice([0.2, 0.5, 0.8])), seed, 0))]
@@ -106,7 +110,28 @@ def run(prop, tier, seed):
                 2: [rng.choice([o('setitem', k=rng.choice([1, 2, 8]), v=rng.choice([4, F2])), o('delitem', k=2), o('popitem', last=1),
                                 o('setdefault', k=8, v=5)]) for _ in range(rng.randint(1, 3))]}
         cj_rand.append((cfg, prog, seed * 1000 + 500000 + i))
-    ctr = [t for lst in pmap(_conc_dfs, cj_dfs, procs=14) for t in lst] + [t for lst in pmap(_conc_rand, cj_rand, procs=14) for t in lst]
+    # client orders generated by TLC from IndexConc (the programs of MCIndexConc), replayed on the real Index
+    from .. import plans
+    FV = lambda v: 200000 + 40 * 100 + v
+    MODEL_PROGS = {
+        'File': {1: [o('setitem', k=1, v=FV(5)), o('getitem', k=1), o('getitem', k=1)],
+                 2: [o('setitem', k=1, v=FV(6)), o('setdefault', k=1, v=7), o('setitem', k=1, v=8)],
+                 3: [o('getitem', k=1), o('setitem', k=1, v=FV(9)), o('getitem', k=1)]},
+        'Remove': {1: [o('setitem', k=1, v=FV(5)), o('setitem', k=2, v=FV(6)), o('getitem', k=2), o('delitem', k=1)],
+                   2: [o('setdefault', k=2, v=7), o('popitem', last=1), o('getitem', k=1)],
+                   3: [o('pop', k=2, d=[]), o('setitem', k=2, v=FV(8)), o('setdefault', k=1, v=9)]}}
+    cj_script = []
+    for name, prog in MODEL_PROGS.items():
+        if tier == 'quick' and name == 'File':
+            continue          # the larger model (35 s of TLC): thorough tier
+        pl, _ = plans.tlc_plans('IndexConcPlan.tla', 'IndexConcPlan_%s.cfg' % name, timeout=120, seed=seed)
+        rng.shuffle(pl)
+        for p_ in pl[:(40 if tier == 'quick' else 1000)]:
+            cfg = dict(policy='none', cull=10, limit=2 ** 30, stats=False, shared=0, kind='index', timeout=0, busy_budget=2, init_pairs=[])
+            cj_script.append((cfg, prog, p_['hist'], seed))
+    out.notes['tlc_generated_schedules_replayed'] = len(cj_script)
+    ctr = [t for lst in pmap(_conc_script, cj_script, procs=14) for t in lst]
+    ctr += [t for lst in pmap(_conc_dfs, cj_dfs, procs=14) for t in lst] + [t for lst in pmap(_conc_rand, cj_rand, procs=14) for t in lst]
     alltr = traces + ctr
     for i, t in enumerate(alltr):
         t['id'] = i + 1
